@@ -136,6 +136,40 @@ C17_CancelCompletes ==
      /\ \A s \in gh.unfinishedAtCancel : st[s].status = "CANCELED"
      /\ (gh.unfinishedAtCancel # {} /\ ~\E s \in TopLevel \cap DOMAIN st : st[s].status \in {"TERMINAL", "STOPPED"})
           => wf.status = "CANCELED"
+
+(* C11  mutex admits one running stage; a deferred choice has exactly one winner *)
+C11_Mutex == \A s1, s2 \in DOMAIN st :
+               (s1 # s2 /\ P.mutex[s1] # "" /\ P.mutex[s1] = P.mutex[s2])
+                 => ~(st[s1].status = "RUNNING" /\ st[s2].status = "RUNNING")
+ChoiceGroups == {P.choice[s] : s \in Stages} \ {""}
+GroupOf(g)   == {s \in Stages : P.choice[s] = g}
+C11_ChoiceAtMostOne == \A g \in ChoiceGroups : Cardinality({s \in GroupOf(g) : gh.starts[s] > 0}) <= 1
+C11_ChoiceLosersCanceled ==
+  Quiescent => \A g \in ChoiceGroups :
+     (\E w \in GroupOf(g) : gh.starts[w] > 0) =>
+        \A o \in GroupOf(g) \cap DOMAIN st : gh.starts[o] = 0 => st[o].status = "CANCELED"
+C11_MutexWaiterRuns ==   \* a waiting stage does run once the holder finishes (no stage left waiting at quiescence)
+  (Quiescent /\ wf.status = "SUCCEEDED") => \A s \in DOMAIN st : P.mutex[s] # "" => st[s].status # "NOT_STARTED"
+C11_ClaimsOfLiveKept_A ==
+  (lbl'.name = "ClaimSweep" /\ wf.status \notin Complete) => claims' = claims
+C11_ClaimsOfLiveKept == [][C11_ClaimsOfLiveKept_A]_vars
+
+(* C18  persistent signals are never lost; a suspended stage resumes once per signal *)
+C18_StaysSuspended_A ==
+  \A s \in DOMAIN st \cap DOMAIN st' :
+     (st[s].status = "SUSPENDED" /\ st'[s].status # "SUSPENDED") => lbl'.name \in {"SignalDeliver", "CancelStage", "JumpApply"}
+C18_StaysSuspended == [][C18_StaysSuspended_A]_vars
+RECURSIVE SumBuf(_)
+SumBuf(S) == IF S = {} THEN 0 ELSE LET s == CHOOSE x \in S : TRUE IN st[s].buf + SumBuf(S \ {s})
+PendingSignals == Cardinality({m \in q : m.typ = "SignalStage" /\ m.pers /\ m.id \notin done})
+C18_NeverLost == gh.sent = gh.consumed + SumBuf(DOMAIN st) + PendingSignals
+C18_NotSittingOnSignal == Quiescent => \A s \in DOMAIN st : st[s].status = "SUSPENDED" => st[s].buf = 0
+C18_ResumeOncePerSignal == gh.resumes <= cnt.signals /\ gh.consumed <= gh.sent
+C18_TransientNoEffect_A == lbl'.name = "SignalDrop" => (st' = st /\ tk' = tk)
+C18_TransientNoEffect == [][C18_TransientNoEffect_A]_vars
+C18_SawSignalOnlyIfDelivered ==
+  \A t \in AllTasks : P.beh[t].k = "suspend" =>
+     Cardinality({i \in DOMAIN ledger[t] : ledger[t][i].sig}) <= gh.resumes * (gh.rearms[StageOf(t)] + 1) + cnt.crashes
 -----------------------------------------------------------------------------
 (* dispatch by name: lets a run evaluate exactly the formulas named in CheckProps (Program.tla) *)
 SP(n) ==
@@ -156,6 +190,14 @@ SP(n) ==
     [] n = "C15_JumpBudget" -> C15_JumpBudget
     [] n = "C15_OncePerIteration" -> C15_OncePerIteration
     [] n = "C17_CancelCompletes" -> C17_CancelCompletes
+    [] n = "C11_Mutex" -> C11_Mutex
+    [] n = "C11_ChoiceAtMostOne" -> C11_ChoiceAtMostOne
+    [] n = "C11_ChoiceLosersCanceled" -> C11_ChoiceLosersCanceled
+    [] n = "C11_MutexWaiterRuns" -> C11_MutexWaiterRuns
+    [] n = "C18_NeverLost" -> C18_NeverLost
+    [] n = "C18_NotSittingOnSignal" -> C18_NotSittingOnSignal
+    [] n = "C18_ResumeOncePerSignal" -> C18_ResumeOncePerSignal
+    [] n = "C18_SawSignalOnlyIfDelivered" -> C18_SawSignalOnlyIfDelivered
     [] OTHER -> TRUE
 AP(n) ==
   CASE n = "C02_NoReexec" -> C02_NoReexec_A
@@ -168,8 +210,11 @@ AP(n) ==
     [] n = "C14_ProgressExact" -> C14_ProgressExact_A
     [] n = "C15_RearmExact" -> C15_RearmExact_A
     [] n = "C17_NoStartAfterCancel" -> C17_NoStartAfterCancel_A
+    [] n = "C11_ClaimsOfLiveKept" -> C11_ClaimsOfLiveKept_A
+    [] n = "C18_StaysSuspended" -> C18_StaysSuspended_A
+    [] n = "C18_TransientNoEffect" -> C18_TransientNoEffect_A
     [] OTHER -> TRUE
-StatePropNames  == {"C01_SameOutcome", "C01_ExecBound", "C01_NothingStranded", "C02_SameOutcome", "C02_StartOnce", "C02_ExecExact", "C05_QuietMeansDone", "C05_SucceededIsHonest", "C05_FailureReported", "C05_NoRunningInFinished", "C09_NoRehandle", "C10_SweepHarmless", "C10_NoExtraExec", "C14_Bounded", "C15_JumpBudget", "C15_OncePerIteration", "C17_CancelCompletes"}
-ActionPropNames == {"C02_NoReexec", "C03_StartsOnlyWhenAllowed", "C03_ExecOnlyStarted", "C03_NoRunBelowHalt", "C06_Legal", "C06_CompletedIsFinal", "C14_ProgressKept", "C14_ProgressExact", "C15_RearmExact", "C17_NoStartAfterCancel"}
+StatePropNames  == {"C01_SameOutcome", "C01_ExecBound", "C01_NothingStranded", "C02_SameOutcome", "C02_StartOnce", "C02_ExecExact", "C05_QuietMeansDone", "C05_SucceededIsHonest", "C05_FailureReported", "C05_NoRunningInFinished", "C09_NoRehandle", "C10_SweepHarmless", "C10_NoExtraExec", "C14_Bounded", "C15_JumpBudget", "C15_OncePerIteration", "C17_CancelCompletes", "C11_Mutex", "C11_ChoiceAtMostOne", "C11_ChoiceLosersCanceled", "C11_MutexWaiterRuns", "C18_NeverLost", "C18_NotSittingOnSignal", "C18_ResumeOncePerSignal", "C18_SawSignalOnlyIfDelivered"}
+ActionPropNames == {"C02_NoReexec", "C03_StartsOnlyWhenAllowed", "C03_ExecOnlyStarted", "C03_NoRunBelowHalt", "C06_Legal", "C06_CompletedIsFinal", "C14_ProgressKept", "C14_ProgressExact", "C15_RearmExact", "C17_NoStartAfterCancel", "C11_ClaimsOfLiveKept", "C18_StaysSuspended", "C18_TransientNoEffect"}
 FailedState  == {n \in CheckProps \cap StatePropNames : ~SP(n)}
 =============================================================================
